@@ -240,6 +240,108 @@ def text_roundtrip(vc):
     vc.prove("parse(print(id))==id[%s]" % sweep, not bad, repr(bad[:3]))
 
 
+def fam_fields(seed, tier):
+    """edge values of every field (incl. 9999 and None) in both operands"""
+    import random
+    rnd = random.Random(seed)
+    ev = [0, 1, 9998, 9999, 10000, 12345]
+    n = 300 if tier == "quick" else 6000
+    for _ in range(n):
+        d = {}
+        for side in ("a", "b"):
+            for f in ("customer", "project", "device"):
+                d["%s_%s_none" % (side, f)] = rnd.random() < 0.2
+                d["%s_%s" % (side, f)] = rnd.choice(ev)
+            d["%s_version" % side] = rnd.choice([0, 7, 99])
+            d["%s_name" % side] = rnd.randrange(3)
+        if rnd.random() < 0.5:           # equal operands must occur often
+            for k in list(d):
+                if k.startswith("b_"):
+                    d[k] = d["a_" + k[2:]]
+        yield d
+
+
+@proof("C12/identifier.fields-predicates-equality",
+       functions=[(MOD, "ConfigId.__init__"), (MOD, "ConfigId.is_device_settings"),
+                  (MOD, "ConfigId.is_baltech_naming_scheme"), (MOD, "ConfigId.__eq__"), (MOD, "ConfigId.__ne__")],
+       family=fam_fields)
+def identifier_fields(vc):
+    """contract of the identifier OBJECT for every integer field value (the text form and the settings decoders rely on
+    it): 9999 is stored as None and every other value as is; 'Baltech naming scheme' iff a customer number is stored;
+    'device settings' iff the stored device number is 0; == is field-wise equality of the STORED values, != its
+    negation, and an identifier never equals a non-identifier."""
+    M = vc.module(MOD)
+    C = M.ConfigId
+    NAMES3 = [None, "name", "other"]
+
+    def operand(side):
+        args = {}
+        for f in ("customer", "project", "device"):
+            if vc.bool("%s_%s_none" % (side, f)):
+                args[f] = None
+            else:
+                args[f] = vc.int("%s_%s" % (side, f), 0, 99999)
+        args["version"] = vc.int("%s_version" % side, 0, 99)
+        args["name"] = vc.choice("%s_name" % side, NAMES3)
+        out = vc.call(C, args["customer"], args["project"], args["device"], args["version"], args["name"])
+        vc.prove("%s.constructs" % side, out.returned, repr(out.exc))
+        return args, (out.value if out.returned else None)
+
+    def stored_is(got, arg):
+        """got is the stored field for constructor argument arg"""
+        if arg is None:
+            return got is None
+        if got is None:
+            return arg == UNKNOWN
+        return vc.And(got == arg, arg != UNKNOWN)
+
+    def same(x, y):
+        """equality of two constructor arguments AFTER the 9999->None normalisation"""
+        xn = vc.Or(x == UNKNOWN) if x is not None else True
+        yn = vc.Or(y == UNKNOWN) if y is not None else True
+        if x is None and y is None:
+            return True
+        if x is None:
+            return yn
+        if y is None:
+            return xn
+        return vc.Or(vc.And(xn, yn), vc.And(vc.Not(xn), vc.Not(yn), x == y))
+
+    aa, a = operand("a")
+    if a is None:
+        return
+    for f in ("customer", "project", "device"):
+        vc.prove("stored-%s=argument(9999->None)" % f, stored_is(getattr(a, f), aa[f]))
+    vc.prove("stored-version=argument", a.version == aa["version"])
+    vc.prove("stored-name=argument", a.name is aa["name"])
+    bal = vc.call(lambda: a.is_baltech_naming_scheme)
+    dev = vc.call(lambda: a.is_device_settings)
+    vc.prove("predicates-return", bal.returned and dev.returned)
+    if not (bal.returned and dev.returned):
+        return
+    want_bal = (aa["customer"] != UNKNOWN) if aa["customer"] is not None else False
+    want_dev = (aa["device"] == 0) if aa["device"] is not None else False
+    vc.prove("baltech-naming-scheme<=>customer-number-stored", vc.Or(vc.And(bal.value, want_bal),
+                                                                      vc.And(vc.Not(bal.value), vc.Not(want_bal))))
+    vc.prove("device-settings<=>device-number-0", vc.Or(vc.And(dev.value, want_dev),
+                                                         vc.And(vc.Not(dev.value), vc.Not(want_dev))))
+    bb, b = operand("b")
+    if b is None:
+        return
+    eq = vc.call(lambda: a == b)
+    ne = vc.call(lambda: a != b)
+    vc.prove("comparison-returns", eq.returned and ne.returned)
+    if not (eq.returned and ne.returned):
+        return
+    want_eq = vc.And(same(aa["customer"], bb["customer"]), same(aa["project"], bb["project"]),
+                     same(aa["device"], bb["device"]), aa["version"] == bb["version"], aa["name"] == bb["name"])
+    vc.prove("==<=>all-stored-fields-equal", vc.Or(vc.And(eq.value, want_eq), vc.And(vc.Not(eq.value), vc.Not(want_eq))))
+    vc.prove("!=<=>not==", vc.Or(vc.And(ne.value, vc.Not(eq.value)), vc.And(vc.Not(ne.value), eq.value)))
+    other = vc.call(lambda: a == "12345-0001-0002-03")
+    vc.prove("never-equal-to-a-non-identifier", other.returned and other.value is False)
+    vc.cover("compared")
+
+
 def _name_only_looks_numeric(inputs):
     return inputs.get("sweep") == "names-ambiguous"
 
